@@ -21,7 +21,7 @@ echo "demo clean : $r_clean"; echo "demo mutant: $r_mut"; echo "suite      : $r_
 cd /repo && git apply $out/patch.diff || { echo "patch does not apply to /repo"; exit 2; }
 res=""
 for p in "$@"; do
-  (cd /verif && bin/check $p --tier quick > /tmp/mut_${name}_$p.log 2>&1); rc=$?
+  (cd /verif && VERIF_EVIDENCE_DIR=/verif/work/evidence_selftest bin/check $p --tier quick > /tmp/mut_${name}_$p.log 2>&1); rc=$?
   nv=$(grep -c "^VIOLATION" /tmp/mut_${name}_$p.log)
   echo "check $p: exit $rc, $nv VIOLATION line(s)"; grep "TOOL ERROR" /tmp/mut_${name}_$p.log | head -2
   res="$res $p:rc=$rc:viol=$nv"
